@@ -11,7 +11,8 @@ Section C07.
 
   (* 1. whatever answer the step computation would have given, a failure (StepSolverError / EvalError
         caught by compute_step) yields: iterate, accepted-step count, path, model times, penalty and policy
-        state unchanged; one more iteration; announced as (current, current, not accepted); lambda doubled *)
+        state unchanged; one more iteration; announced as (current, current, not accepted); lambda doubled (or left
+        as it is when the trial was abandoned at a deadline test before the failure) *)
   Theorem C07_failed_trial_is_discarded : forall c (orc : oracle It) clk s s' n,
     orc (itn It s) (cur It s) (rho It s) (1 / lamb It s) (disp_of It c clk s) = Fail It n ->
     body c orc clk s = inl s' ->
@@ -19,7 +20,7 @@ Section C07.
     /\ rho It s' = rho It s /\ pst It s' = pst It s
     /\ itn It s' = S (itn It s)
     /\ announced It s' = announced It s ++ [(cur It s, cur It s, false)]
-    /\ lamb It s' = 2 * (1 / (1 / lamb It s)).
+    /\ (lamb It s' = 2 * (1 / (1 / lamb It s)) \/ lamb It s' = 1 / (1 / lamb It s)).
   Proof. exact (failed_trial It it_pdata step_norm). Qed.
 
   (* 2. provenance, for EVERY fault sequence (the oracle may answer Fail at any set of positions): the
